@@ -435,6 +435,9 @@ class nd:
     def dot(self, o):
         return matmul(self, o)
 
+    def argmax(self, axis=None):
+        return argmax(self, axis)
+
     # ---- indexing ------------------------------------------------------------------------------------------------
     def _concrete_mask(self, m):
         """boolean mask with symbolic entries -> concrete (branching on every entry: shape-changing selection)"""
@@ -577,9 +580,20 @@ def _index(d, key, owner):
             sel = [x for x, keep in zip(d, m) if keep]
         else:
             if rest and (isi(rest[0], nd) or isinstance(rest[0], list)) and not _is_mask(rest[0]):
-                # paired fancy indexing a[rows, cols]
+                # paired fancy indexing a[rows, cols]; a symbolic row index selects by an if-then-else chain
                 rd = _todata(rest[0])
-                out = [_index(d[int(i)][int(j)], rest[1:], owner) if rest[1:] else d[int(i)][int(j)] for i, j in zip(kd, rd)]
+                out = []
+                for i, j in zip(kd, rd):
+                    if is_sym(i):
+                        col = [row[int(j)] for row in d]
+                        v = col[-1]
+                        for r_ in range(len(col) - 2, -1, -1):
+                            v = s_where(i == r_, col[r_], v)
+                        out.append(v)
+                    else:
+                        out.append(d[int(i)][int(j)])
+                if rest[1:]:
+                    raise Unsupported("fancy indexing with more than two index arrays")
                 return out
             sel = [d[int(i)] for i in kd]
         return [_index(x, rest, owner) for x in sel] if rest else sel
@@ -803,6 +817,58 @@ def argwhere(m):
     raise Unsupported("argwhere on a matrix")
 
 
+def argmax(x, axis=None):
+    """index of the first maximum along an axis; for boolean data: the first True (0 if none)"""
+    x = asarray(x)
+    sh = x.shape
+    if len(sh) == 1 and axis in (None, 0):
+        cols = [list(x._d)]
+        scalar = True
+    elif len(sh) == 2 and axis == 0:
+        cols = [[x._d[r][j] for r in range(sh[0])] for j in range(sh[1])]
+        scalar = False
+    elif len(sh) == 2 and axis == 1:
+        cols = [list(row) for row in x._d]
+        scalar = False
+    else:
+        raise Unsupported("argmax of this shape/axis")
+    out = []
+    for col in cols:
+        if all(type(v) in (bool, SBool) for v in col):
+            idx = 0
+            for r_ in range(len(col) - 1, -1, -1):
+                idx = s_where(col[r_], r_, idx)
+            out.append(idx)
+        else:
+            best, idx = col[0], 0
+            for r_ in range(1, len(col)):
+                gt = col[r_] > best
+                idx = s_where(gt, r_, idx)
+                best = s_where(gt, col[r_], best)
+            out.append(idx)
+    return out[0] if scalar else nd(out)
+
+
+def arange(n):
+    return nd(list(range(int(n))))
+
+
+def swapaxes(x, a, b):
+    x = asarray(x)
+    nd_ = len(x.shape)
+    a, b = a % nd_ if nd_ else 0, b % nd_ if nd_ else 0
+    if a == b:
+        return x
+    if nd_ == 2:
+        return x.T
+    raise Unsupported("swapaxes on arrays of more than two dimensions")
+
+
+def flipud(x):
+    x = asarray(x)
+    return nd._wrap(list(reversed(x._d)), x, alias=x)
+
+
 def clip(x, a_min=None, a_max=None):
     import numpy as _np
     return int(_np.clip(x, a_min, a_max))
@@ -826,6 +892,7 @@ def make_numpy_namespace(real_numpy):
     ns = ModuleShim(real_numpy, {
         "ndarray": nd, "asarray": asarray, "array": array, "zeros": zeros, "ones": ones, "isnan": isnan, "floor": floor,
         "max": amax, "min": amin, "prod": prod, "sum": sum_, "matmul": matmul, "dot": matmul, "delete": delete,
-        "append": append, "argwhere": argwhere, "clip": clip, "errstate": errstate,
+        "append": append, "argwhere": argwhere, "clip": clip, "errstate": errstate, "argmax": argmax, "arange": arange,
+        "swapaxes": swapaxes, "flipud": flipud,
     })
     return ns
